@@ -445,7 +445,9 @@ type shape struct {
 }
 
 func argShapes(e *endpoint, quick bool) []Case {
-	ids := []int64{1, 1 << 31, 1<<40 - 1}
+	// 2^40 and above do not fit the ref bits of osm.FeatureID / ElementID: an endpoint
+	// must format the id it was given, not a packed id
+	ids := []int64{1, 1 << 31, 1<<40 - 1, 1<<40 + 5}
 	if !quick {
 		ids = append(ids, 1<<31-1, 1<<63-1)
 	}
@@ -457,7 +459,7 @@ func argShapes(e *endpoint, quick bool) []Case {
 		}
 	case argIDVersion:
 		if quick {
-			out = append(out, Case{ID: 1, Version: 1}, Case{ID: 1 << 31, Version: 2}, Case{ID: 1<<40 - 1, Version: 1000})
+			out = append(out, Case{ID: 1, Version: 1}, Case{ID: 1 << 31, Version: 2}, Case{ID: 1<<40 - 1, Version: 1000}, Case{ID: 1<<45 + 3, Version: 3})
 		} else {
 			for _, id := range ids {
 				for _, v := range []int{1, 2, 1000, 1<<31 - 1} {
@@ -466,7 +468,7 @@ func argShapes(e *endpoint, quick bool) []Case {
 			}
 		}
 	case argIDList:
-		out = append(out, Case{IDs: []int64{}}, Case{IDs: []int64{1}}, Case{IDs: []int64{1, 1 << 31, 1<<40 - 1}})
+		out = append(out, Case{IDs: []int64{}}, Case{IDs: []int64{1}}, Case{IDs: []int64{1, 1 << 31, 1<<40 - 1}}, Case{IDs: []int64{1 << 40, 2}})
 		if !quick {
 			out = append(out, Case{IDs: []int64{7, 7}}, Case{IDs: []int64{1<<63 - 1, 1}},
 				Case{IDs: []int64{10, 9, 8, 7, 6, 5, 4, 3, 2, 1}})
